@@ -386,7 +386,10 @@ func c33GenStream(r *vhRng) string {
 		in = frame(1 + r.Intn(40))
 		in = in[:r.Intn(len(in))]
 	case 3, 4: // boundary length prefix and a short body
-		in = append(append([]byte{}, c33BoundaryVarints[r.Intn(len(c33BoundaryVarints))]...), r.Bytes(r.Intn(6))...)
+		// lengths between 2^21 and 2^48 are left out: code that allocates the announced length
+		// before checking it would really allocate them
+		v := c33BoundaryVarints[r.Pick(0, 5, 6, 7, 8, 9, 10, 11)]
+		in = append(append([]byte{}, v...), r.Bytes(r.Intn(6))...)
 	default:
 		in = c33SmallBytes(r, r.Intn(14))
 	}
